@@ -42,11 +42,23 @@ func (c *ConcatCase) Reqs() []Req {
 
 func (c *ConcatCase) Judge(rs []Res, env *Env) Outcome {
 	o := Outcome{Cell: c.Cell_}
-	for i := range rs {
+	partsOK := true
+	for i := 0; i < len(rs)-1; i++ {
 		if ok, why := env.accepted(&rs[i]); !ok {
-			o.Status, o.Note = Rejected, why
-			return o
+			partsOK = false
+			o.Note = why
 		}
+	}
+	wholeOK, whyWhole := env.accepted(&rs[len(rs)-1])
+	if !partsOK && !wholeOK {
+		o.Status = Rejected
+		return o
+	}
+	if partsOK != wholeOK {
+		o.Status = Violated
+		o.Viols = []Violation{{Sig: fmt.Sprintf("C14|refusal-depends-on-neighbours|m%d", c.Mode),
+			Detail: fmt.Sprintf("[BITS %d] every part assembles alone: %v; the parts together assemble: %v (%s %s); program:\n%s", c.Mode, partsOK, wholeOK, o.Note, whyWhole, string(c.src(c.Parts...)))}}
+		return o
 	}
 	var want []byte
 	for i := range c.Parts {
